@@ -18,6 +18,10 @@ CLAIMS = {
   "text": "Theorems: validate_chunk_coords accepts exactly the positions of the dataset's chunk grid (C03_validate_iff, both directions, any sizes/chunk sizes), off-grid positions are rejected by write and read with nothing stored (C03_offgrid_rejected), and for EVERY sequence of writes/reads over any scales a read returns the last successfully written chunk of that (scale, position) or a data-access error if none (C03_io_refinement, by induction over the operation list, parametric in a codec satisfying the round-trip law that C02 proves for raw and compressed_segmentation). Correspondence: 4000 coordinate tuples from a mutation grammar, 600 get_encoder infos, 120 write/read interleavings over memory and file accessors with a fresh-handle re-read under another configuration.",
   "note": "The accessor is an abstract store in the theorem (the file/sharded accessors are C12/C05); JPEG: only shape/dtype and a loose error bound are tested (libjpeg outside the model).",
   "ref": "DESIGN.md §8 C03"},
+ "C20": {
+  "text": "Theorems: readable_count output is at most 6 characters below 2^60 (C20_readable_len), exact below 1000 (C20_readable_small_exact), and from 1000 to 2^60 parses back to a value with at least two significant digits within half a unit of the last displayed digit of float(count) (C20_readable_two_digits_and_close, for ALL counts; float(count) error bound C20_float_of_count); the chunk grid walked by the converters has exactly the reported number of chunks, its chunks partition the volume and their voxel counts add up to the volume, and the reported size is voxels x itemsize x channels (C20_chunk_count, C20_chunk_cover_unique, C20_chunk_voxels_total, C20_size_bytes). Correspondence: ~30k counts per run (windows around every prefix boundary, 9.95x, 999.5x, 2^53+), 150 infos through show_scales_info, 5 really converted pyramids (files counted, chunks decoded).",
+  "note": "format(x, '.0f'/'.1f') is modelled as exact half-to-even decimal rounding of the binary value (what CPython implements); np.prod int64 wrap-around is modelled and the theorems assume < 2^63.",
+  "ref": "DESIGN.md §8 C20"},
 }
 def main():
     props = [json.loads(l) for l in open(os.path.join(V, "properties.jsonl"))]
